@@ -316,6 +316,13 @@ func main() {
 			_ = os.WriteFile(target, []byte(b.String()), 0o644)
 		}
 	}
+	{
+		mapFile := os.Getenv("SKEL_MAP")
+		if mapFile == "" {
+			mapFile = filepath.Join(gen, "..", "..", "..", "extract", "skel_map.json")
+		}
+		writeSkel(root, gen, mapFile, os.Getenv("SKEL_SNAPSHOT"), status, facts)
+	}
 	writeApiFacts(root, gen, status, facts)
 	writeLockFacts(root, gen, status, facts)
 	facts["translated"] = status
